@@ -129,13 +129,15 @@ def p_meta(meta, ind):
 def p_mult(m, rng=None):
     lo, hi = m['min'], m['max']
     alt = rng is not None and rng.random() < 0.5
+    # every spelling the grammar has for the same range: a star as lower limit means 0
+    star_lo = rng is not None and lo == 0 and rng.random() < 0.4
     if hi is None:
         if lo == 0:
-            return '0..*' if alt else '*'
+            return '*..*' if star_lo else ('0..*' if alt else '*')
         return '%d..*' % lo
-    if lo == hi:
+    if lo == hi and not star_lo:
         return ('%d..%d' % (lo, hi)) if alt else str(lo)
-    return '%d..%d' % (lo, hi)
+    return ('*..%d' % hi) if star_lo else '%d..%d' % (lo, hi)
 
 
 def p_step(s, rng=None, ind='    '):
